@@ -30,6 +30,7 @@ import (
 	"github.com/containerd/log"
 	"github.com/containerd/stargz-snapshotter/estargz"
 	"github.com/containerd/stargz-snapshotter/estargz/zstdchunked"
+	"github.com/containerd/stargz-snapshotter/util/verifhook"
 	"github.com/klauspost/compress/zstd"
 	"github.com/opencontainers/go-digest"
 	ocispec "github.com/opencontainers/image-spec/specs-go/v1"
@@ -133,6 +134,7 @@ func LayerConvertFuncWithCompressionLevel(compressionLevel zstd.EncoderLevel, op
 				Metadata:         metadata,
 			},
 		}))
+		verifhook.Gate("zstdchunked.opts.appended", desc.Digest)
 		blob, err := estargz.Build(uncompressedSR, append(opts, estargz.WithContext(ctx))...)
 		if err != nil {
 			return nil, err
